@@ -14,6 +14,8 @@ open BsVerif.Dr
 #print axioms C14_slot_reuse
 #print axioms C14_remove_clears_slot
 #print axioms C14_new_thread_inherits
+#print axioms C14_clone_orders_agree
+#print axioms C14_clear_local_disable_global
 #print axioms C14_duplicate_refused
 #print axioms C14_refused_no_side_effect_partial
 #print axioms C14_refused_no_side_effect_counterexample
